@@ -154,14 +154,20 @@ func (t *tcpTransport) Receive(ctx context.Context) (envelope, error) {
 	t.ctxConn.SetReadContext(ctx)
 
 	var raw rawEnvelope
-	if err := t.decoder.Decode(&raw); err != nil {
+	offset := t.decoder.InputOffset()
+	err := t.decoder.Decode(&raw)
+	if err == nil || t.decoder.InputOffset() > offset {
+		// A complete JSON value was taken off the stream. Whether or not it turns out to be
+		// a valid envelope, the next one is entitled to the full read budget.
+		t.limitedReader.N = t.ReadLimit
+	}
+	if err != nil {
 		if errors.Is(err, io.EOF) {
 			t.eof = true
 		}
 		return nil, fmt.Errorf("tcp transport: receive: %w", err)
 	}
 
-	t.limitedReader.N = t.ReadLimit
 	return raw.toEnvelope()
 }
 
